@@ -50,13 +50,15 @@ class Spec(SeqSpec):
     def __init__(self, tier):
         self.tier = tier
         self.depth = 3 if tier == 'quick' else 4
-        self.max_variants = 2 if tier == 'quick' else 3
+        self.max_variants = 2
 
     def roots(self):
         r = [('small-target', {'pack_size_target': 25}, [])]
         if self.tier != 'quick':
-            r.append(('big-target', {'pack_size_target': 4 * 1024 ** 3}, []))
-            r.append(('small-target-sha1-p0', {'pack_size_target': 25, 'hash_type': 'sha1', 'loose_prefix_len': 0}, []))
+            shallow = {'depth': 3, 'max_variants': 3}
+            r.append(('big-target-d3v3', {'pack_size_target': 4 * 1024 ** 3}, [], shallow))
+            r.append(('small-target-sha1-p0-d3v3', {'pack_size_target': 25, 'hash_type': 'sha1', 'loose_prefix_len': 0}, [], shallow))
+            r.append(('target-60-d3v3', {'pack_size_target': 60}, [], shallow))
         return r
 
     def core_ops(self, root_name):
